@@ -248,7 +248,9 @@ pub fn analyse(rel: &Relation) -> DpIr {
                                     // the scale factor literal in an ancestor of this reduce
                                     let mut anc = BTreeMap::new();
                                     walk(input, &mut anc);
-                                    clip = ir.clips.iter().find(|(n, f, _)| anc.contains_key(n) && f == value).map(|x| x.2);
+                                    // (the factor is a column named after the value, or is applied in place in the
+                                    // expression of the `_CLIPPED_<value>` column itself)
+                                    clip = ir.clips.iter().find(|(n, f, _)| anc.contains_key(n) && (f == value || f == c)).map(|x| x.2);
                                 }
                             }
                         }
